@@ -2,6 +2,7 @@ package panos
 
 import (
 	"fmt"
+	"slices"
 
 	"github.com/hknutzen/Netspoc-Approve/go/pkg/deviceconf"
 	"github.com/hknutzen/Netspoc-Approve/go/pkg/errlog"
@@ -26,6 +27,7 @@ func (p1 *PanConfig) MergeSpoc(c2 deviceconf.Config) deviceconf.Config {
 			d1.Vsys = append(d1.Vsys, v1)
 		}
 		if v2 != nil {
+			checkNameClash(v1, v2)
 			// Add elements of vsys from raw/IPv6.
 			v1.Addresses = append(v1.Addresses, v2.Addresses...)
 			v1.AddressGroups = append(v1.AddressGroups, v2.AddressGroups...)
@@ -51,6 +53,46 @@ func (p1 *PanConfig) MergeSpoc(c2 deviceconf.Config) deviceconf.Config {
 		errlog.Abort("%v", err)
 	}
 	return p1
+}
+
+// Objects having the same name in both configurations must be identical.
+// Otherwise the definition merged last would silently replace the other one.
+func checkNameClash(v1, v2 *panVsys) {
+	clash := func(typ, name string) {
+		errlog.Abort("Name clash for %s '%s' in vsys '%s'", typ, name, v2.Name)
+	}
+	sameMembers := func(l1, l2 []string) bool {
+		return slices.Equal(slices.Sorted(slices.Values(l1)),
+			slices.Sorted(slices.Values(l2)))
+	}
+	for _, o2 := range v2.Addresses {
+		for _, o1 := range v1.Addresses {
+			if o1.Name == o2.Name && !addressEq(o1, o2) {
+				clash("address", o2.Name)
+			}
+		}
+	}
+	for _, o2 := range v2.AddressGroups {
+		for _, o1 := range v1.AddressGroups {
+			if o1.Name == o2.Name && !sameMembers(o1.Members, o2.Members) {
+				clash("address-group", o2.Name)
+			}
+		}
+	}
+	for _, o2 := range v2.Services {
+		for _, o1 := range v1.Services {
+			if o1.Name == o2.Name && !serviceEq(o1, o2) {
+				clash("service", o2.Name)
+			}
+		}
+	}
+	for _, o2 := range v2.ServiceGroups {
+		for _, o1 := range v1.ServiceGroups {
+			if o1.Name == o2.Name && !sameMembers(o1.Members, o2.Members) {
+				clash("service-group", o2.Name)
+			}
+		}
+	}
 }
 
 func processVsysPairs(c1, c2 *PanConfig, f func(v1, v2 *panVsys) error) error {
